@@ -21,6 +21,11 @@ enum Call {
     FixedErrors(Vec<i32>),
     LpcError(Vec<i16>, i8, usize, Vec<i32>),
     Subframe(Cfg, Vec<i32>, u8),
+    /// `Stream::write` to a user sink that fails on its k-th operation (returns Err part-way).
+    FailingWrite(Cfg, Pcm, usize),
+    /// `FrameHeader::write` of a header whose start sample number cannot be coded (returns Err after
+    /// part of the header went into the scratch buffer), followed by nothing: the NEXT call must not care.
+    BadHeaderWrite(u64),
 }
 
 fn digest(bytes: &[u8]) -> String {
@@ -71,6 +76,23 @@ fn run(c: &Call) -> String {
             digest(&ints_bytes(&all))
         }
         Call::LpcError(coefs, shift, precision, sig) => digest(&ints_bytes(&vh::compute_error(&coefs, shift, precision, &sig))),
+        Call::FailingWrite(cfg, pcm, k) => match encode(&cfg, &pcm, "st", "mem") {
+            Ok(st) => {
+                use flacenc::component::BitRepr;
+                let mut sink = crate::sink::UserSink { fail_at: Some(k), ..crate::sink::UserSink::default() };
+                let r = st.write(&mut sink);
+                format!("{}:{}:{}", r.is_err(), sink.ops.len(), digest(&sink.packed()))
+            }
+            Err(e) => format!("err:{e}"),
+        },
+        Call::BadHeaderWrite(n) => {
+            use flacenc::component::{BitRepr, ChannelAssignment, FrameHeader, FrameOffset};
+            let mut h = FrameHeader::new(192, ChannelAssignment::Independent(1), 16, 44100, FrameOffset::Frame(0)).unwrap();
+            h.set_frame_offset(FrameOffset::StartSample(n));
+            let mut sink = flacenc::bitsink::MemSink::<u8>::new();
+            let r = h.write(&mut sink);
+            format!("{}:{}", r.is_err(), digest(sink.as_slice()))
+        }
         Call::Subframe(cfg, sig, bps) => {
             use flacenc::component::BitRepr;
             let sf = vh::encode_subframe(&cfg.to_encoder().subframe_coding, &sig, bps);
@@ -91,6 +113,8 @@ fn describe(c: &Call) -> String {
         Call::FixedErrors(s) => format!("fixederr:n{}", s.len()),
         Call::LpcError(c, sh, p, s) => format!("lpcerr:o{}:s{sh}:p{p}:n{}", c.len(), s.len()),
         Call::Subframe(cfg, s, b) => format!("subframe:n{}:b{b}:a{}", s.len(), if cfg.window_rect { 0 } else { cfg.alpha_bits }),
+        Call::FailingWrite(cfg, pcm, k) => format!("failwrite:bs{}:c{}:n{}:k{k}", cfg.block_size, pcm.channels, pcm.len()),
+        Call::BadHeaderWrite(n) => format!("badheader:{n}"),
     }
 }
 
@@ -122,7 +146,12 @@ fn random_call(rng: &mut Rng) -> Call {
         _ => 3 * bs,
     }
     .min(9000 / ch);
-    match rng.below(12) {
+    match rng.below(14) {
+        12 => {
+            let k = rng.below(60) as usize;
+            Call::FailingWrite(cfg, gen::pcm(rng, fam, ch.min(2), bps, 44100, len.min(500)), k)
+        }
+        13 => Call::BadHeaderWrite(*rng.pick(&[1u64 << 36, (1u64 << 36) + 5, u64::MAX, (1u64 << 36) - 1])),
         0..=4 => Call::Encode(cfg, gen::pcm(rng, fam, ch, bps, 44100, len), (*rng.pick(&["st", "st", "frames", "mt:2", "mt:3"])).to_string()),
         #[cfg(feature = "decode")]
         5 => Call::Parse(cfg, gen::pcm(rng, fam, ch, bps, 44100, len.min(600))),
@@ -172,7 +201,36 @@ pub fn generate(seed: u64, cases: usize, out: &mut dyn FnMut(String)) {
     }
     for _ in 0..cases {
         let n = 6 + rng.below(30) as usize;
-        histories.push((0..n).map(|_| random_call(&mut rng)).collect());
+        let mut h: Vec<Call> = vec![];
+        while h.len() < n {
+            let c = random_call(&mut rng);
+            // near-miss follow-ups: the same configuration with a block / signal length that differs by
+            // less than one SIMD vector (16 samples), and the same length with a window parameter one ulp
+            // away — cache keys that are coarser than (exact size, exact bits) collide exactly here
+            let follow = match &c {
+                Call::Encode(cfg, pcm, mode) if rng.chance(45) && pcm.len() > 40 => {
+                    let mut out = vec![];
+                    let d = 1 + rng.below(15) as usize;
+                    let shorter = if rng.chance(50) { pcm.len() - d } else { pcm.len() + d };
+                    let mut r2 = Rng::new(rng.next());
+                    out.push(Call::Encode(cfg.clone(), gen::pcm(&mut r2, pcm.family, pcm.channels, pcm.bps, pcm.rate, shorter), mode.clone()));
+                    if !cfg.window_rect && rng.chance(50) {
+                        let mut c2 = cfg.clone();
+                        c2.alpha_bits = if c2.alpha_bits > 0 { c2.alpha_bits - 1 } else { 1 };
+                        out.push(Call::Encode(c2, pcm.clone(), mode.clone()));
+                    }
+                    out
+                }
+                Call::Subframe(cfg, sig, bps) if rng.chance(45) && sig.len() > 80 => {
+                    let d = 1 + rng.below(15) as usize;
+                    vec![Call::Subframe(cfg.clone(), sig[..sig.len() - d].to_vec(), *bps)]
+                }
+                _ => vec![],
+            };
+            h.push(c);
+            h.extend(follow);
+        }
+        histories.push(h);
     }
     for (i, h) in histories.iter().enumerate() {
         // the whole history on ONE long-lived thread
